@@ -8,15 +8,15 @@ var untimedAssumptions = []string{
 	"bounded: cluster size, per-class event budgets and deviation bound of each suite (listed per suite in coverage.suites)",
 	"intra-node goroutine order is canonical (lowest name first, run to quiescence) in the cluster suites; other orders: SCHED scenarios (sched-rep3, sched-elect3 and the property specific ones) enumerate every goroutine schedule within a decision bound",
 	"message loss is modelled as unbounded delay; a partition holds messages instead of failing them",
-	"storage is the harness' in-memory implementation of the public storage interfaces (file-backed storage: C12-C14)",
+	"storage is the harness' in-memory implementation of the public storage interfaces, except in the suites named file*: those run the cluster on the library's real file-backed log, state and snapshot storages (crashes at quiescent points; crash points inside storage calls: C12-C14)",
 	"64-bit state fingerprints: collision probability below 1e-5 for the state counts reached",
 }
 
 func init() {
 	checks["C01"] = func(prop, tier string) int {
-		p := []plan{{"all1", 30}, {"rep2-d3", 30}, {"part2-d4", 40}, {"rep3-d3", 135}, {"crash3-d2", 67}, {"net3-d2", 30}, {"regained5-d2", 70}}
+		p := []plan{{"all1", 30}, {"rep2-d3", 30}, {"part2-d4", 40}, {"rep3-d3", 135}, {"crash3-d2", 67}, {"net3-d2", 30}, {"regained5-d2", 70}, {"slowapply3-d2", 30}, {"filecrash3-d2", 30}, {"revote3-d2", 30}}
 		if tier == "thorough" {
-			p = []plan{{"all1", 10}, {"all2", 150}, {"rep2-d5", 100}, {"rep3-d4", 500}, {"crash3-d3", 300}, {"net3-d3", 120}, {"lead3-d3", 300}, {"rep4-d3", 150}, {"rep5-d2", 60}, {"crash5-d2", 120}, {"part2-d5", 100}, {"part3-d3", 400}, {"part4-d3", 400}, {"regained5-d3", 300}, {"stale5-d3", 300}}
+			p = []plan{{"all1", 10}, {"all2", 150}, {"revote3-d4", 300}, {"rep2-d5", 100}, {"rep3-d4", 500}, {"crash3-d3", 300}, {"net3-d3", 120}, {"lead3-d3", 300}, {"rep4-d3", 150}, {"rep5-d2", 60}, {"crash5-d2", 120}, {"part2-d5", 100}, {"part3-d3", 400}, {"part4-d3", 400}, {"regained5-d3", 300}, {"stale5-d3", 300}, {"slowapply3-d3", 400}, {"filecrash3-d3", 300}}
 		}
 		sp := []schedPlan{{"sched-rep3", 2, 60}}
 		if tier == "thorough" {
@@ -25,9 +25,9 @@ func init() {
 		return clusterCheckSched(prop, tier, p, []string{"leader_present", "op_applied_on_2plus_nodes", "restarted_node_up", "op_acked"}, untimedAssumptions, nil, sp)
 	}
 	checks["C02"] = func(prop, tier string) int {
-		p := []plan{{"elect2-d3", 30}, {"elect3-d3", 92}, {"elect4-d2", 35}, {"split3-d3", 30}, {"crash3-d2", 67}, {"crash2-d3", 50}, {"part2-d4", 40}}
+		p := []plan{{"elect2-d3", 30}, {"elect3-d3", 92}, {"elect4-d2", 35}, {"split3-d3", 30}, {"crash3-d2", 67}, {"crash2-d3", 50}, {"part2-d4", 40}, {"filesplit3-d2", 30}, {"filecrash3-d2", 30}, {"revote3-d2", 30}}
 		if tier == "thorough" {
-			p = []plan{{"elect2-d5", 100}, {"elect3-d4", 500}, {"elect4-d3", 300}, {"elect5-d2", 120}, {"split3-d4", 200}, {"crash3-d3", 300}, {"crash2-d4", 150}, {"crash4-d2", 100}}
+			p = []plan{{"revote3-d4", 300}, {"elect2-d5", 100}, {"elect3-d4", 500}, {"elect4-d3", 300}, {"elect5-d2", 120}, {"split3-d4", 200}, {"crash3-d3", 300}, {"crash2-d4", 150}, {"crash4-d2", 100}, {"filesplit3-d3", 200}, {"filecrash3-d3", 300}}
 		}
 		sp := []schedPlan{{"sched-elect3", 2, 60}}
 		if tier == "thorough" {
@@ -36,9 +36,9 @@ func init() {
 		return clusterCheckSched(prop, tier, p, []string{"leader_present", "term_3plus", "restarted_node_up"}, untimedAssumptions, nil, sp)
 	}
 	checks["C07"] = func(prop, tier string) int {
-		p := []plan{{"rep3-d3", 135}, {"split3-d2", 30}, {"lead3-d2", 52}, {"elect3-d2", 30}, {"crash3-d2", 67}, {"oldlong3-d2", 37}}
+		p := []plan{{"rep3-d3", 135}, {"split3-d2", 30}, {"lead3-d2", 52}, {"elect3-d2", 30}, {"crash3-d2", 67}, {"oldlong3-d2", 37}, {"regainedelect5-d2", 40}}
 		if tier == "thorough" {
-			p = []plan{{"rep3-d4", 500}, {"split3-d4", 200}, {"lead3-d3", 300}, {"elect3-d4", 400}, {"crash3-d3", 300}, {"rep4-d3", 150}, {"oldlong3-d4", 400}, {"snap3-d3", 300}}
+			p = []plan{{"rep3-d4", 500}, {"split3-d4", 200}, {"lead3-d3", 300}, {"elect3-d4", 400}, {"crash3-d3", 300}, {"rep4-d3", 150}, {"oldlong3-d4", 400}, {"snap3-d3", 300}, {"regainedelect5-d3", 300}}
 		}
 		sp := []schedPlan{{"sched-rep3", 2, 60}, {"sched-elect3", 2, 60}}
 		if tier == "thorough" {
@@ -47,9 +47,9 @@ func init() {
 		return clusterCheckSched(prop, tier, p, []string{"leader_present", "two_leaders_different_terms", "op_acked"}, untimedAssumptions, nil, sp)
 	}
 	checks["C03"] = func(prop, tier string) int {
-		p := []plan{{"cli3-d2", 35}, {"rep3-d3", 135}, {"net3-d2", 30}, {"pending3-d2", 40}}
+		p := []plan{{"cli3-d2", 35}, {"rep3-d3", 135}, {"net3-d2", 30}, {"pending3-d2", 40}, {"regainedelect5-d2", 60}, {"stoprestart3-d2", 30}, {"slowapply3-d2", 30}}
 		if tier == "thorough" {
-			p = []plan{{"cli3-d3", 200}, {"cli3-d4", 600}, {"rep3-d4", 500}, {"net3-d3", 120}, {"all2", 150}, {"rep4-d3", 150}}
+			p = []plan{{"cli3-d3", 200}, {"cli3-d4", 600}, {"rep3-d4", 500}, {"net3-d3", 120}, {"all2", 150}, {"rep4-d3", 150}, {"regainedelect5-d3", 400}, {"stoprestart3-d3", 200}, {"slowapply3-d3", 400}}
 		}
 		sp := []schedPlan{{"sched-rep3", 2, 60}}
 		if tier == "thorough" {
@@ -58,9 +58,9 @@ func init() {
 		return clusterCheckSched(prop, tier, p, []string{"leader_present", "op_acked", "op_applied_on_2plus_nodes"}, untimedAssumptions, nil, sp)
 	}
 	checks["C04"] = func(prop, tier string) int {
-		p := []plan{{"all1", 30}, {"crash2-d3", 50}, {"crash3-d2", 67}, {"lead3-d2", 52}, {"stale5-d2", 72}, {"regained5-d2", 70}, {"part2-d4", 40}}
+		p := []plan{{"all1", 30}, {"crash2-d3", 50}, {"crash3-d2", 67}, {"lead3-d2", 52}, {"stale5-d2", 72}, {"regained5-d2", 70}, {"part2-d4", 40}, {"restoring3-d3", 60}, {"filecrash3-d2", 30}, {"revote3-d2", 30}}
 		if tier == "thorough" {
-			p = []plan{{"all1", 10}, {"crash2-d4", 150}, {"crash3-d3", 400}, {"lead3-d3", 400}, {"stale5-d3", 300}, {"crash4-d2", 100}, {"crash5-d2", 150}}
+			p = []plan{{"all1", 10}, {"crash2-d4", 150}, {"crash3-d3", 400}, {"lead3-d3", 400}, {"stale5-d3", 300}, {"crash4-d2", 100}, {"crash5-d2", 150}, {"restoring3-d4", 400}, {"slowsnap3-d3", 400}, {"filecrash3-d3", 300}, {"revote3-d3", 200}}
 		}
 		sp := []schedPlan{{"sched-rep3", 2, 60}}
 		if tier == "thorough" {
@@ -90,9 +90,9 @@ func init() {
 			}
 		}
 		if tier == "thorough" {
-			p = append(p, plan{"split3-d4", 200}, plan{"crash3-d3", 300}, plan{"elect3-d3", 100}, plan{"crash2-d4", 150}, plan{"stale5-d3", 300})
+			p = append(p, plan{"split3-d4", 200}, plan{"crash3-d3", 300}, plan{"elect3-d3", 100}, plan{"crash2-d4", 150}, plan{"stale5-d3", 300}, plan{"filesplit3-d3", 200}, plan{"filecrash3-d3", 300})
 		} else {
-			p = append(p, plan{"split3-d3", 30}, plan{"crash3-d2", 67}, plan{"elect3-d2", 30}, plan{"stale5-d2", 72})
+			p = append(p, plan{"split3-d3", 30}, plan{"crash3-d2", 67}, plan{"elect3-d2", 30}, plan{"stale5-d2", 72}, plan{"filesplit3-d2", 30}, plan{"filecrash3-d2", 30})
 		}
 		sp := []schedPlan{{"sched-elect3", 2, 60}}
 		if tier == "thorough" {
